@@ -3,7 +3,7 @@
    State/CommitReopen.v.  All theorems are parametric in the hash function H; collision
    freedom is a hypothesis on the set [play] of tries involved, never on all inputs. *)
 From stdpp Require Import gmap.
-From GV Require Import Lib.Bytes Trie.Node Trie.Hash Trie.OpsProofs Trie.Canon State.Ref State.Journal State.Commit State.CommitProofs State.CommitReopen.
+From GV Require Import Lib.Bytes Trie.Node Trie.Hash Trie.OpsProofs Trie.Canon State.Ref State.Journal State.Commit State.CommitProofs State.CommitReopen State.CommitSync State.CommitFin State.CommitBlock.
 
 (* Commit after IntermediateRoot returns the root IntermediateRoot returned (any rules
    at either call: the second Finalise finds an empty journal). *)
@@ -42,17 +42,16 @@ Print Assumptions C14_copy_independent.
    Commit with a changed root stores every trie under its hash, and the trie reader at the
    new root returns for EVERY address the finalised object's account blob (absent for a
    dead one) and for EVERY slot of every live account the blob of its committed value.
-   MISSING: that [hashed] holds after every history (Finalise's mutations /
-   uncommittedStorage bookkeeping - exercised by the correspondence only); the RLP decode
-   round trip from blobs to getter values; the code store; the empty update (root
-   unchanged: nothing is written). *)
+   [hashed] itself is established over block histories by C14_hashed_after_block below.
+   MISSING: the RLP decode round trip from blobs to getter values; the code store; the
+   empty update (root unchanged: nothing is written). *)
 Theorem C14_reopen_reads_partial :
   forall (H : list N -> list N), (forall x, forallb byteb (H x) = true) ->
-  forall (play : node -> Prop), play NEmpty ->
+  forall (addr_ok : addr -> Prop) (slot_ok : slot -> Prop) (play : node -> Prop), play NEmpty ->
     (forall t1 t2, play t1 -> play t2 -> hash_root H t1 = hash_root H t2 -> t1 = t2) ->
   forall r r' p cs root cs1 T root' p',
     intermediate_root H r p cs = COk (root, cs1) ->
-    hashed H play p cs1 T -> pdb_ok H play p -> root <> c_root cs1 ->
+    hashed H addr_ok slot_ok play p cs1 T -> pdb_ok H play p -> root <> c_root cs1 ->
     commit H r' p cs1 = COk (root', p') ->
     root' = root /\ pdb_ok H play p' /\ extends p p' /\
     open_trie H p' root' = Some T /\
@@ -68,11 +67,11 @@ Print Assumptions C14_reopen_reads_partial.
    incarnation held there.  Partial for the same reason ([hashed] is a hypothesis). *)
 Theorem C14_destruct_recreate_clean_partial :
   forall (H : list N -> list N), (forall x, forallb byteb (H x) = true) ->
-  forall (play : node -> Prop), play NEmpty ->
+  forall (addr_ok : addr -> Prop) (slot_ok : slot -> Prop) (play : node -> Prop), play NEmpty ->
     (forall t1 t2, play t1 -> play t2 -> hash_root H t1 = hash_root H t2 -> t1 = t2) ->
   forall r r' p cs root cs1 T root' p' a o k,
     intermediate_root H r p cs = COk (root, cs1) ->
-    hashed H play p cs1 T -> pdb_ok H play p -> root <> c_root cs1 ->
+    hashed H addr_ok slot_ok play p cs1 T -> pdb_ok H play p -> root <> c_root cs1 ->
     commit H r' p cs1 = COk (root', p') ->
     a ∈ j_destruct (c_j cs1) -> j_objs (c_j cs1) !! a = Some o -> o_pending o !! k = None -> slot_ok k ->
     exists S, open_trie H p' (x_root (ext_of H cs1 a)) = Some S /\ t_get S (slot_key H k) = COk None /\
@@ -85,8 +84,8 @@ Print Assumptions C14_destruct_recreate_clean_partial.
    in every slot) have the same account trie and the same root - by uniqueness of
    canonical tries (Trie/Canon.v), with no hash assumption.  Partial: [hashed] again. *)
 Theorem C14_root_depends_only_on_state_partial :
-  forall (H : list N -> list N) (play : node -> Prop) p1 cs1 T1 p2 cs2 T2,
-    hashed H play p1 cs1 T1 -> hashed H play p2 cs2 T2 ->
+  forall (H : list N -> list N) (addr_ok : addr -> Prop) (slot_ok : slot -> Prop) (play : node -> Prop) p1 cs1 T1 p2 cs2 T2,
+    hashed H addr_ok slot_ok play p1 cs1 T1 -> hashed H addr_ok slot_ok play p2 cs2 T2 ->
     (forall a, match j_objs (c_j cs1) !! a, j_objs (c_j cs2) !! a with
           | Some o1, Some o2 => o_data o1 = o_data o2 /\
                                 forall k, slot_ok k -> committed (c_j cs1) a o1 k = committed (c_j cs2) a o2 k
@@ -100,10 +99,107 @@ Print Assumptions C14_root_depends_only_on_state_partial.
 (* the hypotheses of the three conditional theorems are jointly satisfiable (the up-to-date
    empty state over the empty database); the concrete chain below exercises non-trivial states *)
 Theorem C14_hashed_satisfiable :
-  forall (H : list N -> list N) (play : node -> Prop), play NEmpty ->
-    hashed H play pdb0 (cs_empty H) NEmpty /\ pdb_ok H play pdb0.
+  forall (H : list N -> list N) (addr_ok : addr -> Prop) (slot_ok : slot -> Prop) (play : node -> Prop), play NEmpty ->
+    hashed H addr_ok slot_ok play pdb0 (cs_empty H) NEmpty /\ pdb_ok H play pdb0.
 Proof. exact hashed_empty. Qed.
 Print Assumptions C14_hashed_satisfiable.
+
+(* ------------------------------------------------------------------------------------
+   The representation invariant over histories.  [Sync] is the invariant of a StateDB
+   between transactions; it holds of the empty chain start (C14_sync_genesis) and is
+   preserved by every transaction - any sequence of journalled calls inside the C13 guards
+   with arbitrarily nested Snapshot/RevertToSnapshot, then Finalise under any rules - and
+   by IntermediateRoot between transactions; after IntermediateRoot the state is [hashed].
+   [addr_ok]/[slot_ok] = the universe of addresses/slots on which the secure keys are
+   assumed collision free; [txs_ok] = the calls are inside the C13 guards (Journal.op_ok, no
+   RIPEMD sticky touch) and the objects/slots dirty at each Finalise lie in that universe.
+   SetTxContext/Prepare (access list, transient storage: no effect on the committed state)
+   are not among the calls of a transaction body here. *)
+Theorem C14_sync_genesis :
+  forall (H : list N -> list N), (forall x, forallb byteb (H x) = true) ->
+  forall (addr_ok : addr -> Prop) (slot_ok : slot -> Prop) (al : list addr) (ks : list slot),
+    open H al ks pdb0 (empty_root H) = COk (cs_genesis H) /\ Sync H addr_ok slot_ok pdb0 (cs_genesis H).
+Proof. exact genesis_ok. Qed.
+Print Assumptions C14_sync_genesis.
+
+Theorem C14_hashed_after_block :
+  forall (H : list N -> list N), (forall x, forallb byteb (H x) = true) ->
+  forall (addr_ok : addr -> Prop) (slot_ok : slot -> Prop),
+    (forall a b, addr_ok a -> addr_ok b -> addr_key H a = addr_key H b -> a = b) ->
+    (forall a b, slot_ok a -> slot_ok b -> slot_key H a = slot_key H b -> a = b) ->
+  forall (play : node -> Prop) p cs0 ts cs r root cs1 T,
+    Sync H addr_ok slot_ok p cs0 -> txs_ok H addr_ok slot_ok p cs0 ts -> run_txs H p cs0 ts = Some cs ->
+    intermediate_root H r p cs = COk (root, cs1) -> c_trie cs1 = Some T ->
+    play T -> (forall a o S, j_objs (c_j cs1) !! a = Some o -> obj_trie H p cs1 a = Some S -> play S) ->
+    hashed H addr_ok slot_ok play p cs1 T /\ hash_root H T = Some root.
+Proof. exact block_hashed. Qed.
+Print Assumptions C14_hashed_after_block.
+
+(* reopen_reads over block histories: no invariant is assumed of the final state any more.
+   Still partial: the start state must satisfy [Sync] - proved for the empty chain start
+   only; that state.New on a committed root re-establishes it (which needs the RLP decode
+   round trip and the code store) is not proved, so chains of several blocks are covered
+   block by block, not end to end; blob level; root changed. *)
+Theorem C14_reopen_reads_block_partial :
+  forall (H : list N -> list N), (forall x, forallb byteb (H x) = true) ->
+  forall (addr_ok : addr -> Prop) (slot_ok : slot -> Prop),
+    (forall a b, addr_ok a -> addr_ok b -> addr_key H a = addr_key H b -> a = b) ->
+    (forall a b, slot_ok a -> slot_ok b -> slot_key H a = slot_key H b -> a = b) ->
+  forall (play : node -> Prop), play NEmpty ->
+    (forall t1 t2, play t1 -> play t2 -> hash_root H t1 = hash_root H t2 -> t1 = t2) ->
+  forall p cs0 ts cs r r' root cs1 root' p',
+    Sync H addr_ok slot_ok p cs0 -> pdb_ok H play p -> txs_ok H addr_ok slot_ok p cs0 ts ->
+    run_txs H p cs0 ts = Some cs ->
+    intermediate_root H r p cs = COk (root, cs1) -> tries_play H play p cs1 -> root <> c_root cs1 ->
+    commit H r' p cs1 = COk (root', p') ->
+    exists T, root' = root /\ pdb_ok H play p' /\ extends p p' /\ open_trie H p' root' = Some T /\
+      (forall a, addr_ok a -> t_get T (addr_key H a) = COk (obj_entry H cs1 a)) /\
+      (forall a o, j_objs (c_j cs1) !! a = Some o ->
+         exists S, open_trie H p' (x_root (ext_of H cs1 a)) = Some S /\
+              forall k, slot_ok k -> t_get S (slot_key H k) = COk (vopt (slot_val (committed (c_j cs1) a o k)))).
+Proof. exact block_reopen_reads. Qed.
+Print Assumptions C14_reopen_reads_block_partial.
+
+Theorem C14_destruct_recreate_clean_block_partial :
+  forall (H : list N -> list N), (forall x, forallb byteb (H x) = true) ->
+  forall (addr_ok : addr -> Prop) (slot_ok : slot -> Prop),
+    (forall a b, addr_ok a -> addr_ok b -> addr_key H a = addr_key H b -> a = b) ->
+    (forall a b, slot_ok a -> slot_ok b -> slot_key H a = slot_key H b -> a = b) ->
+  forall (play : node -> Prop), play NEmpty ->
+    (forall t1 t2, play t1 -> play t2 -> hash_root H t1 = hash_root H t2 -> t1 = t2) ->
+  forall p cs0 ts cs r r' root cs1 root' p' a o k,
+    Sync H addr_ok slot_ok p cs0 -> pdb_ok H play p -> txs_ok H addr_ok slot_ok p cs0 ts ->
+    run_txs H p cs0 ts = Some cs ->
+    intermediate_root H r p cs = COk (root, cs1) -> tries_play H play p cs1 -> root <> c_root cs1 ->
+    commit H r' p cs1 = COk (root', p') ->
+    a ∈ j_destruct (c_j cs1) -> j_objs (c_j cs1) !! a = Some o -> o_pending o !! k = None -> slot_ok k ->
+    exists S, open_trie H p' (x_root (ext_of H cs1 a)) = Some S /\ t_get S (slot_key H k) = COk None /\
+         read_slot H S k = COk 0%N.
+Proof. exact block_destruct_recreate_clean. Qed.
+Print Assumptions C14_destruct_recreate_clean_block_partial.
+
+(* two block histories - from any [Sync] states (e.g. the empty chain start), over any
+   databases, with any nesting of snapshots/reverts and any rules - that end in the same
+   observable accounts compute the same root; no hash assumption beyond the key universe *)
+Theorem C14_root_depends_only_on_state_block_partial :
+  forall (H : list N -> list N), (forall x, forallb byteb (H x) = true) ->
+  forall (addr_ok : addr -> Prop) (slot_ok : slot -> Prop),
+    (forall a b, addr_ok a -> addr_ok b -> addr_key H a = addr_key H b -> a = b) ->
+    (forall a b, slot_ok a -> slot_ok b -> slot_key H a = slot_key H b -> a = b) ->
+  forall (play : node -> Prop) pa csa0 tsa csa ra roota csa1 pb csb0 tsb csb rb rootb csb1,
+    Sync H addr_ok slot_ok pa csa0 -> txs_ok H addr_ok slot_ok pa csa0 tsa -> run_txs H pa csa0 tsa = Some csa ->
+    intermediate_root H ra pa csa = COk (roota, csa1) -> tries_play H play pa csa1 ->
+    Sync H addr_ok slot_ok pb csb0 -> txs_ok H addr_ok slot_ok pb csb0 tsb -> run_txs H pb csb0 tsb = Some csb ->
+    intermediate_root H rb pb csb = COk (rootb, csb1) -> tries_play H play pb csb1 ->
+    (forall a, match j_objs (c_j csa1) !! a, j_objs (c_j csb1) !! a with
+          | Some o1, Some o2 => o_data o1 = o_data o2 /\
+                                forall k, slot_ok k -> committed (c_j csa1) a o1 k = committed (c_j csb1) a o2 k
+          | None, None => True
+          | _, _ => False
+          end) ->
+    roota = rootb.
+Proof. exact block_root_depends_only_on_state. Qed.
+Print Assumptions C14_root_depends_only_on_state_block_partial.
 
 Example C14_nonvacuous : sample_check = true.
 Proof. vm_compute. reflexivity. Qed.
